@@ -32,6 +32,9 @@ def run_property(prop: str, tier: str, seed: int, root: str, out=print, write_ev
     except AnalysisError as exc:
         out(f"ANALYSIS-ERROR property={prop} {exc}")
         run.note(f"ANALYSIS-ERROR: {exc}")
+        if run.violations():
+            # violations established before the analysis gave up are definite: report them
+            return report.finish(run, root, out=out, write_evidence=write_evidence)
         if write_evidence:
             run.explanation = run.explanation or "analysis could not decide"
             report.write_evidence_file(run, root, [], [])
